@@ -454,3 +454,60 @@ Proof.
 Qed.
 
 End AcceptedTables.
+
+(* ---- every name of an accepted table is recognised and validates (C15, C04) ---- *)
+Require Import Proofs.Trie Proofs.Recognise.
+Section AcceptedNames.
+Variable O : oracle.
+Hypothesis sp_is_space : is_space O 32%N = true.
+Hypothesis kw_plain : forall c, In c [97; 110; 100; 111; 114; 119; 105; 116; 104; 40; 41]%N ->
+  is_space O c = false /\ lower_ch O c = [c].
+Hypothesis lower_space : forall c, is_space O c = true -> lower_ch O c = [c].
+Hypothesis lower_nospace : forall c, is_space O c = false -> lower_ch O c <> [] /\ nospace O (lower_ch O c).
+Variables (raw T : list entry).
+Hypothesis built : new_licensing O raw = Ok T.
+Hypothesis names_opfree : forall n v, In (n, v) (flat_map (entry_adds O) T) ->
+  forall w, In w (lwords O n) -> is_keyword_str w = false.
+
+(* the words of a name of the table are stored with the symbol of its entry *)
+Theorem accepted_name_stored e n v : In e T -> In (n, v) (entry_adds O e) -> lwords O n <> [] ->
+  exists sp, stored O (keyword_adds ++ flat_map (entry_adds O) T) (lwords O n) = Some (sp, VSym (entry_sym e)).
+Proof.
+  intros He Hn Hne. destruct (built_parts O raw T built) as [HA HV]. pose proof (as_symbols_keys O sp_is_space raw T HA) as KV.
+  assert (Hflat : In (n, v) (flat_map (entry_adds O) T)) by (apply in_flat_map; exists e; split; assumption).
+  rewrite (entry_value O e n v Hn) in Hflat.
+  apply (stored_owner O (keyword_adds ++ flat_map (entry_adds O) T) n (VSym (entry_sym e))).
+  - apply in_or_app. right. exact Hflat.
+  - intro C. subst n. apply Hne. reflexivity.
+  - exact Hne.
+  - intros n' v' H' E'. apply (accepted_names_unambiguous O sp_is_space lower_space lower_nospace kw_plain T names_opfree KV HV n' v' n _ H').
+    + apply in_or_app. right. exact Hflat.
+    + rewrite E'. exact Hne.
+    + exact E'.
+Qed.
+
+Lemma known_key_entry e : In e T -> known_key T (ekey e) = true.
+Proof. intro He. unfold known_key. apply existsb_exists. exists e. split; [exact He | apply str_eqb_refl]. Qed.
+
+Lemma validate_of_name text s : parse O T false false false text = Ok (Some (Lit (Plain s))) -> known_key T (key s) = true ->
+  validate O T false text = {| normalized := Some (key s); errors := []; invalid_symbols := [] |}.
+Proof.
+  intros Hp Hk. unfold validate. rewrite Hp.
+  unfold unknown_license_keys, unknown_license_symbols, license_symbols. cbn [literals flat_map decompose map app filter is_unknown].
+  rewrite Hk. reflexivity.
+Qed.
+
+(* a text that spells a name of the table - any letter case, any white space - is that license: it parses to the symbol of the
+   entry, renders as the canonical key and validates without errors *)
+Theorem accepted_name_resolves e n v text : In e T -> In (n, v) (entry_adds O e) -> lwords O n <> [] ->
+  lwords O text = lwords O n ->
+  parse O T false false false text = Ok (Some (Lit (Plain (entry_sym e)))) /\
+  render (Lit (Plain (entry_sym e))) = ekey e /\
+  validate O T false text = {| normalized := Some (ekey e); errors := []; invalid_symbols := [] |}.
+Proof.
+  intros He Hn Hne Et. destruct (accepted_name_stored e n v He Hn Hne) as [sp0 Es]. rewrite <- Et in Es.
+  destruct (recognise_name O T text sp0 (entry_sym e) Es) as [Hp Hr]. split; [exact Hp|]. split; [exact Hr|].
+  apply (validate_of_name text (entry_sym e) Hp). apply (known_key_entry e He).
+Qed.
+
+End AcceptedNames.
